@@ -1017,6 +1017,18 @@ func (e *env) storeCase(t *testing.T, p *pool, rng *rand.Rand, sp storeParams) {
 		hist = append(hist, fmt.Sprintf("block %d: sets=%d dels=%d -> Commit() version %d", b, ns, nd, st.Version()))
 		vers = append(vers, ver{st.Version(), root, set.clone()})
 		e.run.Count("store_commits", 1)
+		// sometimes the newest heights are rolled back and replaced: proofs for the heights committed afterwards (and for
+		// the surviving ones) must verify against the roots committed for them
+		if len(vers) >= 3 && b < sp.blocks-1 && rng.Intn(4) == 0 {
+			keep := 1 + rng.Intn(len(vers)-1)
+			if err := st.Rollback(vers[keep-1].v); err != nil {
+				t.Fatalf("rollback: %v", err)
+			}
+			vers = vers[:keep]
+			set = vers[keep-1].set.clone()
+			hist = append(hist, fmt.Sprintf("Rollback(%d)", vers[keep-1].v))
+			e.run.Count("store_rollbacks", 1)
+		}
 	}
 	type got struct {
 		s   subject
